@@ -1,9 +1,10 @@
 """C21 — MFS republisher publishes the latest root and never regresses (spec/Republisher)."""
-import json
+import json, os, re
 
 SPEC = "Republisher"
 PKG = "mfs"
 TEST = "TestVerifC21"
+TRACE_MODULE, TRACE_CFG = "TraceRepublisher.tla", "TraceRepublisher.cfg"
 
 META = dict(
     spec=SPEC,
@@ -32,39 +33,41 @@ def split_runs(recs):
     return runs
 
 
-def validate(ctx, recs, name, timeout, negative=False, hint=None):
-    """accept with the smallest set of open deviations; anything else is a violation"""
+def validate(ctx, recs, name, timeout, negative=False, minimal=False):
+    """Accept with no deviation, else with the open ones (reported: those an accepting explanation used; with
+    minimal=True a single sufficient one is searched first).  Anything else is a violation."""
     tr = ctx.write_ndjson(name + ".ndjson", recs)
-    od = sorted(ctx.open_devs(), key=lambda d: d != hint)      # the scenario's own deviation first
-    tries = [()] + [(d,) for d in od] + ([tuple(od)] if len(od) > 1 else [])
+    od = sorted(ctx.open_devs())
+    tries = [()] + ([(d,) for d in od] if minimal and len(od) > 1 else []) + ([tuple(od)] if od else [])
     best = None
     for devs in tries:
-        res = ctx.tlc_trace(SPEC, "TraceRepublisher.tla", "TraceRepublisher.cfg", tr, timeout=timeout, devs=devs)
+        res = ctx.tlc_trace(SPEC, TRACE_MODULE, TRACE_CFG, tr, timeout=timeout, devs=devs)
         if res["timeout"]:
             ctx.broken("trace validation %s timed out" % name)
             return False
         if res["accepted"]:
+            used = set(re.findall(r'<<"DEV_USED", "(\w+)">>', res["out"])) & set(devs) if len(devs) > 1 else set(devs)
             for k in ctx.known_findings():
-                if k.get("status") == "open" and k["deviation"] in devs:
+                if k.get("status") == "open" and k["deviation"] in used:
                     ctx.deviation(k["deviation"], k.get("what", k["deviation"]))
             ctx.cov["traces_validated_against_impl"] += len(split_runs(recs))
             ctx.cov["evaluations"] += len(recs)
             if negative:
-                neg_control(ctx, recs, name, devs, timeout)
+                neg_control(ctx, recs, name, timeout)
             return True
         if best is None or res["hwm"] > best["hwm"]:
             best = res
     h = best["hwm"]
     bad = recs[h] if h < len(recs) else None
     start = max([i for i in range(0, h + 1) if i < len(recs) and recs[i].get("ev") == "Reset"] or [0])
-    ctx.violation("recorded history %s rejected by TraceRepublisher at event %d: %s (no explanation of the run "
-                  "satisfies the republisher spec and its properties)" % (name, h + 1, json.dumps(bad)[:300]),
+    ctx.violation("recorded history %s rejected by %s at event %d: %s (no explanation of the run satisfies the spec "
+                  "and its properties)" % (name, TRACE_MODULE, h + 1, json.dumps(bad)[:300]),
                   dict(rejected_event_index=h, event=bad, run_prefix=recs[start:h + 1]),
                   name="trace_reject_%s.json" % name)
     return False
 
 
-def neg_control(ctx, recs, name, devs, timeout):
+def neg_control(ctx, recs, name, timeout):
     """binding control: a Pub event with a foreign value must be rejected exactly there; a dropped
     successful Pub must be rejected somewhere"""
     # use only a few runs around a successful Pub in the middle of the trace (cheap)
@@ -113,6 +116,8 @@ def run(ctx):
                        "random gate commands and sleeps), each validated by TraceRepublisher. non-trivial = run with >= 2 "
                        "successful publishes or a failed publish followed by a success")
     q = ctx.quick
+    if os.environ.get("VERIF_SKIP_M"):      # self-test convenience: the model does not depend on the repo
+        return run_t(ctx)
     unused = ("DevLoopRecvUpdDup", "UpdDrain", "UpdPut", "UpdDrop", "WaitTimeout", "CloseTimeout", "CloseOnceWait")
     # ---- M: ideal spec, safety (quick: 2 values, 2 updates, 1 failure; thorough: 3 values / 3 updates / 2 failures)
     ctx.tlc_mc(SPEC, "Republisher.tla", "MCRepublisher.cfg", timeout=1800, coverage=not q, allow_zero=unused)
@@ -120,7 +125,7 @@ def run(ctx):
         for cfg in ("MCRepublisherF2.cfg", "MCRepublisherV3.cfg", "MCRepublisherU3.cfg"):
             ctx.tlc_mc(SPEC, "Republisher.tla", cfg, timeout=3600)
     # ---- M: liveness of the ideal spec
-    ctx.tlc_mc(SPEC, "Republisher.tla", "MCRepublisherLive.cfg", timeout=1800)
+    ctx.tlc_mc(SPEC, "Republisher.tla", "MCRepublisherLiveQ.cfg" if q else "MCRepublisherLive.cfg", timeout=3600)
     # ---- M (thorough): as built: the remaining invariants hold, and each deviation is what breaks its property
     if not q:
         ctx.tlc_mc(SPEC, "Republisher.tla", "MCRepublisherAsBuilt.cfg", timeout=1800)
@@ -130,15 +135,24 @@ def run(ctx):
             if not (r["violated"] and want in r["violated"]):
                 ctx.broken("model sensitivity: %s should violate %s but gave %s" % (cfg, want, r["violated"]))
     ctx.cov["exhaustive"] = True
-    # ---- T
+    run_t(ctx)
+
+
+def run_t(ctx):
+    q = ctx.quick
     binp = ctx.go_build(PKG, ["mfs/zz_verif_C21_test.go"])
-    hints = dict(dev1="Dev_C21_IpStaysDisabled", stress="Dev_C21_UpdateNotAtomic")
-    for scen, to in (("dev1", 600), ("stress", 1200), ("random", 2400)):
-        recs, out, rc = ctx.go_run(binp, TEST, pkg=PKG, mode="record", env={"C21_SCEN": scen}, timeout=600)
+    allrecs = []
+    for scen, to in (("dev1", 900), ("stress", 1800), ("random", 3600)):
+        recs, out, rc = ctx.go_run(binp, TEST, pkg=PKG, mode="record", env={"C21_SCEN": scen}, timeout=900)
         if rc != 0 or not recs:
             ctx.broken("record driver (%s) died: rc=%s %s" % (scen, rc, out[-1500:]))
             return
         nontrivial_runs(ctx, recs, scen)
         if scen == "dev1":
             ctx.sample(recs[:40])
-        validate(ctx, recs, scen, to, negative=(scen == "random"), hint=hints.get(scen))
+        if q:
+            allrecs += recs            # quick: one validation of everything
+        else:
+            validate(ctx, recs, scen, to, negative=(scen == "random"), minimal=True)
+    if q:
+        validate(ctx, allrecs, "all", 3600, negative=True)
